@@ -494,6 +494,11 @@ def block_diagonalize(
         else:
             to_keep = equal_eigs
             to_eliminate = {i: 1 - keep for i, keep in to_keep.items()}
+            # Energies equal within atol need not form an equivalence relation. If they
+            # do not, products of kept and eliminated parts may have kept elements, and
+            # the commuting blocks optimization does not apply.
+            for i, keep in to_keep.items():
+                commuting_blocks[i] = not ((keep @ keep > 0) & (keep == 0)).any()
 
         # Convert numpy arrays to sympy matrices if blocks are symbolic.
         to_eliminate = {
